@@ -317,4 +317,83 @@ def removeHigherSpaceDimensions (cfg : Cfg) (b : Box) (nd : Nat) : Box :=
     let (_, b) := b.isEmptyQ cfg.p
     { b with seq := b.seq.take nd }
 
+/-- `is_universe()` of an interval (Interval_defs.hh:221, `is_domain_inf` / `is_domain_sup`) for the modelled
+instantiations (`store_special`, or a floating boundary type) -/
+def isUniverseIv (p : Policy) (I : Iv) : Bool :=
+  isBoundaryInfinity p .lower I.lo && isBoundaryInfinity p .upper I.hi
+
+/-- one half of `bounded_affine_preimage` (lines 3518–3555 / 3557–3594): `bnd` is the stored finite bound of
+`var` (value, reported openness), `other` the *other* bound expression with its coefficient `oc` of `var`,
+`lower = true` for the block of the lower bound (which minimizes), `false` for the upper bound (maximizes).
+`none` = the GMP division by zero (`q.canonicalize()` with a zero denominator, KF-C03-1) -/
+def bapHalf (cfg : Cfg) (b : Box) (v : Nat) (lower : Bool) (bnd : Rat) (bopen : Bool) (other : LinExpr) (oc : Int)
+    (den : Int) : Option (Box × Bool) :=
+  let negDen := decide (den < 0)
+  let posDen : Int := if negDen then -den else den
+  -- numer = q.num * pos_denominator ; denom = ± q.den
+  let numer : Int := bnd.num * posDen
+  let denom : Int := if negDen then -(bnd.den : Int) else (bnd.den : Int)
+  -- revised = (other - oc*var) * (-denom) + numer
+  let revised := ((other.sub (LinExpr.var oc v)).scale (-denom)).add (LinExpr.const numer)
+  let (ext, b) := maxMin cfg.p b revised (!lower)
+  match ext with
+  | none => some (b, false)
+  | some (m, included) =>
+    -- denom *= (ext_denom * oc); q = ext_numer / denom
+    let d : Int := denom * ((m.den : Int) * oc)
+    if d == 0 then none
+    else
+      let q : Rat := (m.num : Rat) / (d : Rat)
+      let opn := bopen || !included
+      let up := if oc ≥ 0 then !negDen else negDen
+      let rel : Rel :=
+        if lower then (if up then (if opn then .gt else .ge) else (if opn then .lt else .le))
+        else (if up then (if opn then .lt else .le) else (if opn then .gt else .ge))
+      let I := addConstraintIv cfg.p cfg.R (b.get v) rel q
+      let b := b.setIv v I
+      if isEmpty cfg.p I then some (b.setEmpty, true) else some (b, false)
+
+/-- `bounded_affine_preimage(var, lb_expr, ub_expr, denominator)` (Box_templates.hh:3426); `none` = the
+process dies with SIGFPE -/
+def boundedAffinePreimage (cfg : Cfg) (b : Box) (v : Nat) (lb ub : LinExpr) (den : Int) : Option Box :=
+  if b.markedEmpty then some b
+  else
+    let lbc := lb.coeff v
+    let ubc := ub.coeff v
+    let b := if lbc == ubc then
+        (if den < 0 then refineWithConstraint cfg b (conGe lb ub) else refineWithConstraint cfg b (conLe lb ub))
+      else b
+    let final (b : Box) : Box :=
+      if lbc != ubc then
+        (if den > 0 then refineWithConstraint cfg b (conLe lb ub) else refineWithConstraint cfg b (conGe lb ub))
+      else b
+    let I := b.get v
+    if isUniverseIv cfg.p I then some (final b)
+    else
+      let openLower := isOpen cfg.p .lower I.lo
+      let unbLower := isBoundaryInfinity cfg.p .lower I.lo
+      let I1 := if unbLower then I else lowerExtend cfg.p I
+      let openUpper := isOpen cfg.p .upper I1.hi
+      let unbUpper := isBoundaryInfinity cfg.p .upper I1.hi
+      let I2 := if unbUpper then I1 else upperExtend cfg.p I1
+      let b := b.setIv v I2
+      let step1 : Option (Box × Bool) :=
+        if unbLower then some (b, false)
+        else match I.lo.value with
+          | fin l => bapHalf cfg b v true l openLower ub ubc den
+          | _ => some (b, false)
+      match step1 with
+      | none => none
+      | some (b, true) => some b
+      | some (b, false) =>
+        let step2 : Option (Box × Bool) :=
+          if unbUpper then some (b, false)
+          else match I.hi.value with
+            | fin u => bapHalf cfg b v false u openUpper lb lbc den
+            | _ => some (b, false)
+        match step2 with
+        | none => none
+        | some (b, true) => some b
+        | some (b, false) => some (final b)
+
 end PPLV.WR.BoxT
